@@ -55,6 +55,8 @@ func main() {
 			cases = append(cases, Case{op, fields})
 		})
 		runAll(cases)
+	case "consts":
+		constsMain(os.Args[2:])
 	case "firstuse":
 		firstUseMain(os.Args[2:])
 	case "replay":
